@@ -117,7 +117,20 @@ func logicalDoc(d *Doc) string {
 	return "?"
 }
 
-func logicalV(v reflect.Value) string {
+func logicalV(v reflect.Value) string { return logicalVd(v, map[[2]uintptr]bool{}) }
+
+func logicalVd(v reflect.Value, seen map[[2]uintptr]bool) string {
+	switch v.Kind() { // a value that contains itself
+	case reflect.Pointer, reflect.Map, reflect.Slice:
+		if !v.IsNil() && v.Kind() != reflect.Slice || v.Kind() == reflect.Slice && v.Len() > 0 {
+			key := [2]uintptr{v.Pointer(), uintptr(v.Kind())}
+			if seen[key] {
+				return "<cycle>"
+			}
+			seen[key] = true
+			defer delete(seen, key)
+		}
+	}
 	if !v.IsValid() {
 		return "null"
 	}
@@ -126,7 +139,7 @@ func logicalV(v reflect.Value) string {
 		if v.IsNil() {
 			return "null"
 		}
-		return logicalV(v.Elem())
+		return logicalVd(v.Elem(), seen)
 	}
 	if v.CanInterface() {
 		if d, ok := v.Interface().(decimal.Decimal); ok {
@@ -154,7 +167,7 @@ func logicalV(v reflect.Value) string {
 	case reflect.Slice, reflect.Array:
 		var ps []string
 		for i := 0; i < v.Len(); i++ {
-			ps = append(ps, logicalV(v.Index(i)))
+			ps = append(ps, logicalVd(v.Index(i), seen))
 		}
 		return "[" + strings.Join(ps, ",") + "]"
 	case reflect.Map:
@@ -168,7 +181,7 @@ func logicalV(v reflect.Value) string {
 			} else {
 				ks = k.String()
 			}
-			ps = append(ps, strings.ToLower(ks)+"="+logicalV(v.MapIndex(k)))
+			ps = append(ps, strings.ToLower(ks)+"="+logicalVd(v.MapIndex(k), seen))
 		}
 		sort.Strings(ps)
 		return "{" + strings.Join(ps, ",") + "}"
@@ -179,7 +192,7 @@ func logicalV(v reflect.Value) string {
 			if !f.IsExported() {
 				continue
 			}
-			ps = append(ps, strings.ToLower(f.Name)+"="+logicalV(v.Field(i)))
+			ps = append(ps, strings.ToLower(f.Name)+"="+logicalVd(v.Field(i), seen))
 		}
 		sort.Strings(ps)
 		return "{" + strings.Join(ps, ",") + "}"
